@@ -57,7 +57,7 @@ class Session:
         driver.configure(cfg)
         driver.reset()
 
-    def send(self, frames, chain=0, grp=0, pair=0, timeout=120):
+    def send(self, frames, chain=0, grp=0, pair=0, timeout=45):
         """Run frames; returns the observations (dicts with out/rep/tcb/log), one per frame.
         An abort of the responder is recorded as such; the driver is then restarted (empty
         connection table, recorded as a reset) and the remaining frames are still run."""
